@@ -449,6 +449,9 @@ def collect_histories(chk, binary, runs, tag, timeout=180, jobs=None):
     Returns list of (history, origin) where origin describes the run (for replay)."""
     tdir = os.path.join(BUILD, "traces")
     os.makedirs(tdir, exist_ok=True)
+    # The harnesses detect a hang themselves (no record written for 45-170 s, or a blocked step for 12 s); the
+    # outer limit is only a backstop and must not fire on a slow but progressing run on a loaded machine.
+    timeout = timeout * 3
 
     def one(i_run):
         i, (args, env) = i_run
